@@ -464,6 +464,7 @@ func c14Eval(c *fw.Ctx, data any) {
 			c.Violation("crosstalk", "result-differs", work[k].kind, fmt.Sprintf("unit %d (%s) produced different bytes/values when processed concurrently with %d other goroutines than when processed alone", k, desc, G-1))
 		}
 	}
+	c14SharedReadOnly(c, cs, G)
 	if c.WantSample() {
 		var ex []string
 		for i := 0; i < len(all) && i < 6; i++ {
@@ -472,6 +473,100 @@ func c14Eval(c *fw.Ctx, data any) {
 		c.Sample(map[string]any{"case": cs, "lowest_ids": ex, "work_units": len(work)})
 	}
 	_ = util.Message(nil)
+}
+
+// c14SharedReadOnly: values that are only ever read may be shared between goroutines (a range object describing a
+// register window, a field header obtained once from the registry). Their observers are asked concurrently, the first
+// time on a fresh object, and must answer what the closed form says (a lazily filled cache inside such a value is a
+// data race and can hand a half-built answer to the second reader).
+func c14SharedReadOnly(c *fw.Ctx, cs *c14Case, G int) {
+	r := prng.Derive(cs.Seed, 1416)
+	type rg struct {
+		first, last int
+		obj         *of.NXRange
+	}
+	var ranges []rg
+	for k := 0; k < 24; k++ {
+		first := r.Intn(32)
+		last := r.Range(first, 31)
+		if k%3 == 0 {
+			first, last = 0, 31-k%8
+		}
+		if k%2 == 0 {
+			ranges = append(ranges, rg{first, last, of.NewNXRange(first, last)})
+		} else {
+			ranges = append(ranges, rg{first, last, of.NewNXRangeByOfsNBits(first, last-first+1)})
+		}
+	}
+	var hdrs []*of.MatchField
+	for _, n := range []string{"NXM_NX_REG4", "NXM_NX_CT_LABEL", "OXM_OF_IPV6_SRC", "NXM_NX_TUN_ID"} {
+		if f, err := of.FindFieldHeaderByName(n, true); err == nil && f != nil {
+			hdrs = append(hdrs, f)
+		}
+	}
+	wantHdr := make([]uint32, len(hdrs))
+	for i, f := range hdrs {
+		wantHdr[i] = uint32(f.Class)<<16 | uint32(f.Field)<<9 | uint32(f.Length)
+		if f.HasMask {
+			wantHdr[i] |= 1 << 8
+		}
+	}
+	bad := make([]string, G)
+	start := make(chan struct{})
+	var wg sync.WaitGroup
+	for g := 0; g < G; g++ {
+		wg.Add(1)
+		go func(g int) {
+			defer wg.Done()
+			<-start
+			p, pv, st := fw.Recover(func() {
+				for pass := 0; pass < 3; pass++ {
+					for k := range ranges {
+						x := ranges[(k+g)%len(ranges)]
+						n := x.last - x.first + 1
+						wantMask := uint32((uint64(1)<<uint(n) - 1) << uint(x.first))
+						for step := 0; step < 4; step++ {
+							switch (step + g) % 4 {
+							case 0:
+								if m := x.obj.ToUint32Mask(); m != wantMask && bad[g] == "" {
+									bad[g] = fmt.Sprintf("range %d..%d shared by %d goroutines: ToUint32Mask() = %#08x, want %#08x", x.first, x.last, G, m, wantMask)
+								}
+							case 1:
+								if w := x.obj.ToOfsBits(); w != uint16(x.first<<6|(n-1)) && bad[g] == "" {
+									bad[g] = fmt.Sprintf("range %d..%d shared by %d goroutines: ToOfsBits() = %#04x, want %#04x", x.first, x.last, G, w, x.first<<6|(n-1))
+								}
+							case 2:
+								if o := x.obj.GetOfs(); int(o) != x.first && bad[g] == "" {
+									bad[g] = fmt.Sprintf("range %d..%d shared by %d goroutines: GetOfs() = %d", x.first, x.last, G, o)
+								}
+							default:
+								if nb := x.obj.GetNbits(); int(nb) != n && bad[g] == "" {
+									bad[g] = fmt.Sprintf("range %d..%d shared by %d goroutines: GetNbits() = %d, want %d", x.first, x.last, G, nb, n)
+								}
+							}
+						}
+					}
+					for i, f := range hdrs {
+						if w := f.MarshalHeader(); w != wantHdr[i] && bad[g] == "" {
+							bad[g] = fmt.Sprintf("field header shared by %d goroutines: MarshalHeader() = %#08x, want %#08x", G, w, wantHdr[i])
+						}
+					}
+				}
+			})
+			if p && bad[g] == "" {
+				bad[g] = "panic: " + pv + "\n" + fw.TrimStack(st)
+			}
+		}(g)
+	}
+	close(start)
+	wg.Wait()
+	c.Count("shared_read_only_values_observed_concurrently", int64(len(ranges)+len(hdrs)))
+	for _, b := range bad {
+		if b != "" {
+			c.Violation("crosstalk", "result-differs", "shared-read-only-value", b)
+			break
+		}
+	}
 }
 
 // c14Disjoint builds every constructor-table value twice and requires that no slice a caller can reach through
